@@ -138,6 +138,8 @@ class Builder:
             if nonzero:
                 ctx.constrain(v != 0)
             self.leaves.append((T, v, None if T[1] else 0, None))
+            if self.in_range and not T[1]:
+                ctx.constrain(v >= 0)
             return v, v
         if k == "char":
             b = ctx.bytes(self.name(), 1)
